@@ -50,7 +50,8 @@ pub struct CallSpec {
     pub backend: u8,
     /// header array ends at a guard page
     pub arr_guard: bool,
-    /// 0 = allocator disarmed, 1 = counting, 2 = failing
+    /// 0 = allocator disarmed, 1 = counting, 2 = failing; +4 = environment fault (every getenv
+    /// lookup during the call finds the variable set)
     pub alloc_mode: u8,
 }
 
@@ -155,6 +156,8 @@ pub struct Obs {
     pub work: (u64, u64, u64, u64, u64),
     pub buf_len: usize,
     pub panic_msg: Option<String>,
+    /// getenv lookups made during the call (only counted in environment-fault runs)
+    pub env_lookups: u64,
 }
 
 static SENTINEL: [u8; 4096] = [b'~'; 4096];
@@ -308,7 +311,13 @@ impl Session {
         debug_assert!(spec.cfg == 0 || entry == 1 || entry == 3);
 
         let _ = take_work();
-        alloc::arm(spec.alloc_mode);
+        if spec.alloc_mode & 4 != 0 {
+            // a cold cache, as in a fresh process, so first-call work happens inside the window
+            self.cur_backend = 255;
+            self.backend(spec.backend);
+            alloc::arm_env(true);
+        }
+        alloc::arm(spec.alloc_mode & 3);
         let val = self.val.as_mut().unwrap();
         let res = catch_unwind(AssertUnwindSafe(|| match val {
             Val::Req(r) => map_st(match entry {
@@ -326,6 +335,7 @@ impl Session {
             }),
         }));
         let (allocs, alloc_size) = alloc::disarm();
+        let env_lookups = alloc::disarm_env();
         let work = take_work();
         let (st, panic_msg) = match res {
             Ok(st) => (st, None),
@@ -361,7 +371,9 @@ impl Session {
             work,
             buf_len: buf.len(),
             panic_msg,
+            env_lookups: 0,
         };
+        o.env_lookups = env_lookups;
         if st == St::Panic {
             return o;
         }
@@ -442,7 +454,7 @@ pub fn is_sentinel(h: &HdrObs) -> bool {
 
 fn call_chunk(spec: &CallSpec, buf: &'static [u8]) -> Obs {
     let _ = take_work();
-    alloc::arm(spec.alloc_mode);
+    alloc::arm(spec.alloc_mode & 3);
     let res = catch_unwind(|| httparse::parse_chunk_size(buf));
     let (allocs, alloc_size) = alloc::disarm();
     let work = take_work();
@@ -473,6 +485,7 @@ fn call_chunk(spec: &CallSpec, buf: &'static [u8]) -> Obs {
         work,
         buf_len: buf.len(),
         panic_msg,
+        env_lookups: 0,
     }
 }
 
@@ -487,7 +500,7 @@ fn call_headers(arena: &mut Arena, spec: &CallSpec, buf: &'static [u8]) -> Obs {
     };
     let snapshot = raw_bytes(p as *const u8, spec.cap * HSZ);
     let _ = take_work();
-    alloc::arm(spec.alloc_mode);
+    alloc::arm(spec.alloc_mode & 3);
     let res = catch_unwind(AssertUnwindSafe(|| match httparse::parse_headers(buf, arr) {
         Ok(Status::Complete((n, hs))) => (St::Complete(n), Some((hs.as_ptr() as usize, hs.len()))),
         Ok(Status::Partial) => (St::Partial, None),
@@ -516,6 +529,7 @@ fn call_headers(arena: &mut Arena, spec: &CallSpec, buf: &'static [u8]) -> Obs {
         work,
         buf_len: buf.len(),
         panic_msg: None,
+        env_lookups: 0,
     };
     let (st, hs) = match res {
         Ok(x) => x,
